@@ -51,6 +51,8 @@ unsafe impl<T> Trace for Reference<T> {
 }
 
 fn set(r: &Reference<A>, a: Generic<A>) -> IO<()> {
+    #[cfg(feature = "verif_hooks")]
+    crate::verif::sched_point("reference_set");
     match r.thread.deep_clone_value(&r.thread, a.get_value()) {
         // SAFETY Rooted when stored in the reference
         Ok(a) => unsafe {
